@@ -487,6 +487,8 @@ void World::renderProc() {
   {
     std::ostringstream o;
     auto line = [&](const std::string& k, int64_t bytes) {
+      if (p.drop_meminfo.count(k))
+        return;
       char b[128];
       snprintf(b, sizeof b, "%-16s%8" PRId64 " kB\n", (k + ":").c_str(),
                bytes / 1024);
